@@ -61,7 +61,7 @@ def main():
             cmd = [binary, corpus]
             if os.path.isdir(seeds) and os.listdir(seeds):
                 cmd.append(seeds)
-            cmd += ["-seed=%d" % (seed * 1000 + i + 1), "-runs=%d" % runs, "-len_control=0", "-max_len=2048", "-timeout=60", "-rss_limit_mb=4096", "-print_final_stats=1", "-artifact_prefix=" + arts]
+            cmd += ["-seed=%d" % (seed * 1000 + i + 1), "-runs=%d" % runs, "-len_control=0", "-max_len=2048", "-use_value_profile=1", "-timeout=60", "-rss_limit_mb=4096", "-print_final_stats=1", "-artifact_prefix=" + arts]
             env = dict(ENV, FUZZ_MODE=pid, FUZZ_REPLAY_DIR=replay_dir)
             # output goes to a file: with pipes the instances that are not being read block once
             # the pipe buffer is full (libFuzzer prints one line per new corpus unit)
